@@ -77,6 +77,16 @@ fn candidates(len: usize, salt: u32) -> Vec<Message> {
                     }
                 }
             }
+            // the same with a string value (no chunk terminator: covers the sizes Bytes cannot reach)
+            for slack in 2..=7 {
+                if len >= 25 + slack {
+                    let p = len - 25 - slack;
+                    let text: String = payload(p, salt).into_iter().map(|b| (b'a' + b % 26) as char).collect();
+                    if let Ok(value) = SerializedValue::serialize(text) {
+                        c.push(Message::SendItem(SendItem { cookie: ChannelCookie(uuid_of(salt)), value }));
+                    }
+                }
+            }
             // CallFunction: two more varints to absorb a jump of the payload's length prefix
             for slack in 4..=12 {
                 for (a, b) in [(1, 1), (2, 1), (3, 1), (2, 2), (3, 2)] {
@@ -97,10 +107,6 @@ fn candidates(len: usize, salt: u32) -> Vec<Message> {
         _ => {}
     }
     c
-}
-
-pub fn supported(len: usize) -> bool {
-    len == 5 || (6..=10).contains(&len) || len >= 22
 }
 
 #[derive(Default)]
